@@ -4,6 +4,7 @@ From Verif Require Import Base.Util Model.Runner Model.RetryQueue Model.Pipeline
      Proofs.RunnerProofs Proofs.RetryQueueProofs Proofs.PipelineProofs Gen.Generated.
 From Verif Require Import Base.GenIR Gen.GeneratedTr Proofs.GenTrRetry.
 From Verif Require Import Base.GenIR Gen.GeneratedTr Proofs.GenTrPost.
+From Verif Require Import Base.GenIR Gen.GeneratedTr Proofs.GenTrPost.
 Open Scope N_scope.
 
 (* Eligible results: for every flow, cache, payload list, pipeline, batch-failure pattern,
@@ -292,6 +293,32 @@ Theorem C12_gen_combine :
   g_pp_combine_body = ([1], Fall).
 Proof. exact gen_pp_combine. Qed.
 Print Assumptions C12_gen_combine.
+
+End GenTie.
+
+Section GenTie.
+Local Open Scope Z_scope.
+(* ---- Tie to the source by translation (Gen/GeneratedTr.v, regenerated from /repo on every run by gen/translate.go) ----
+   g_* are the decision terms translated from the CURRENT Go code: every condition, the branch structure and which
+   white-listed effect statement runs on which path.  The theorems below state that the model's functions - about
+   which every theorem above speaks - are the interpretation of these terms. *)
+(* Observer.Process: tick value, every pre-processor in turn (each on what the previous one let through), check pipeline, post-processor on results and pre-processed payloads *)
+Theorem C12_gen_Observer_Process_steps :
+  forall tick_err run_err post_err pre_err : bool,
+  g_observer_process tick_err run_err post_err =
+    (if tick_err then ([1], RetO 1) else if run_err then ([1; 2; 3], RetO 1)
+     else if post_err then ([1; 2; 3; 4], RetO 1) else ([1; 2; 3; 4], RetO 0)) /\
+  g_observer_preprocess_body pre_err = (if pre_err then ([1], RetO 1) else ([1], Fall)).
+Proof. exact gen_observer_process. Qed.
+Print Assumptions C12_gen_Observer_Process_steps.
+
+(* proposal filterer and final-flow tick: what is dropped before the pipeline *)
+Theorem C12_gen_flow_filters :
+  forall already empty : bool,
+  g_proposal_filterer_body already = (if already then ([], Fall) else ([1], Fall)) /\
+  g_final_flow_tick_body empty = (if empty then ([1], Cont) else ([2], Fall)).
+Proof. exact gen_flow_filters. Qed.
+Print Assumptions C12_gen_flow_filters.
 
 End GenTie.
 
